@@ -2,7 +2,7 @@
 // Each case names one expression of a fixed menu over the aliased leaves x (id 0) and y (id 1).  The driver builds the
 // expression, records its terms [id, args] from the view objects it constructed (ids are the views' own id_type) and
 // reports the extracted graph as a canonical listing: shape = [#nodes, #edges, #duplicate node keys], elems = node ids
-// ascending followed by the edges (source, target) ascending.  ComputeGraph.tla defines the graph of the terms.
+// ascending followed by the edges (source, target) ascending and the operand list (id, count, operands in order) of every function node.  ComputeGraph.tla defines the graph of the terms.
 #include "verif/driver.hpp"
 #include "verif/arrays.hpp"
 #include "nmtools/array/view/alias.hpp"
@@ -49,9 +49,24 @@ template <class V> static vj::value graph_of(const V& v, const std::vector<term>
     meta::template_for<NN>([&](auto I) { auto key = nmtools::get<decltype(I)::value>(nodes); ns.push_back((long)meta::remove_cvref_t<decltype(key)>::value); });
     meta::template_for<NE>([&](auto J) { auto e = nmtools::get<decltype(J)::value>(edges);
         es.insert({(long)meta::remove_cvref_t<decltype(nmtools::get<0>(e))>::value, (long)meta::remove_cvref_t<decltype(nmtools::get<1>(e))>::value}); });
+    // the operand list every function node carries (in operand order), nodes ascending: id, count, operand ids
+    std::vector<std::vector<long>> opl;
+    meta::template_for<NN>([&](auto I) {
+        auto key = nmtools::get<decltype(I)::value>(nodes); auto data = g.nodes(key);
+        using D = meta::remove_cvref_t<decltype(data)>;
+        if constexpr (!(std::is_pointer_v<D> || meta::is_num_v<D> || meta::is_ndarray_v<D>)) {
+            std::vector<long> row{(long)meta::remove_cvref_t<decltype(key)>::value};
+            constexpr auto NO = meta::len_v<typename D::operands_type>;
+            row.push_back((long)NO);
+            meta::template_for<NO>([&](auto J) { row.push_back((long)meta::remove_cvref_t<decltype(nmtools::get<decltype(J)::value>(data.operands))>::value); });
+            opl.push_back(row);
+        }
+    });
+    std::sort(opl.begin(), opl.end());
     std::sort(ns.begin(), ns.end()); long dups = 0; for (size_t i = 1; i < ns.size(); i++) if (ns[i] == ns[i - 1]) dups++;
     ns.erase(std::unique(ns.begin(), ns.end()), ns.end());
     std::vector<long> el = ns; for (auto& p : es) { el.push_back(p.first); el.push_back(p.second); }
+    for (auto& row : opl) for (auto x : row) el.push_back(x);
     vj::value r = vj::value::object();
     r.set("ok", true).set("crash", "").set("shape", vj::value(std::vector<long>{(long)ns.size(), (long)es.size(), dups})).set("elems", vj::value(el));
     return r;
